@@ -79,12 +79,16 @@ class TimeRecurrenceParser(object):
             if "intv" in result_map:
                 duration = self.duration_parser.parse(
                     result_map["intv"])
-            return data.TimeRecurrence(
-                repetitions=repetitions,
-                start_point=start_point,
-                end_point=end_point,
-                duration=duration
-            )
+            try:
+                return data.TimeRecurrence(
+                    repetitions=repetitions,
+                    start_point=start_point,
+                    end_point=end_point,
+                    duration=duration
+                )
+            except OverflowError:
+                # e.g. a repetition count beyond the range of a float
+                raise ISO8601SyntaxError("recurrence", expression)
         raise ISO8601SyntaxError("recurrence", expression)
 
     __call__ = parse
